@@ -19,9 +19,20 @@ ASSUMPTIONS = [
 ]
 
 
+def composition(ctx):
+    """The real two-exchange system (props/composition.py, spec/BarterSystem.tla `Routed`): a request for an
+    instrument of exchange X is answered in the name of X - commands spanning both exchanges included."""
+    from props import composition as comp
+    comp.run(ctx, comp.C04_TAGS, runs=3 if ctx.quick else 20)
+
+
 def check(ctx):
-    return indexing.check(ctx, "C04", "c04", "MC_Indexing.cfg" if ctx.quick else "MC_Indexing_thorough.cfg", ASSUMPTIONS)
+    return indexing.check(ctx, "C04", "c04", "MC_Indexing.cfg" if ctx.quick else "MC_Indexing_thorough.cfg", ASSUMPTIONS,
+                          before_finish=composition)
 
 
 def replay(ctx, rp):
+    if rp.get("kind") == "system":
+        composition(ctx)          # re-runs the real system with the recorded seed family
+        return ctx.finish(write_evidence=False)
     return indexing.replay(ctx, rp, "C04", "c04")
